@@ -6,6 +6,7 @@ import GdVerif.Run.Settings
 import GdVerif.Run.Views
 import GdVerif.Run.Games
 import GdVerif.Run.IdCheck
+import GdVerif.Run.Real
 import GdVerif.Run.Quake
 import GdVerif.Run.GenQuake
 /-
@@ -14,7 +15,7 @@ import GdVerif.Run.GenQuake
 -/
 open Gd Gd.Run
 
-def allEntries : List (String × (List String → String)) := readerEntries ++ valveEntries ++ masterEntries ++ settingsEntries ++ viewEntries ++ gameEntries ++ idCheckEntries ++ quakeEntries
+def allEntries : List (String × (List String → String)) := readerEntries ++ valveEntries ++ masterEntries ++ settingsEntries ++ viewEntries ++ gameEntries ++ idCheckEntries ++ realEntries ++ quakeEntries
 
 def runLine (line : String) : String :=
   match line.trimAscii.toString.splitOn " " with
